@@ -40,6 +40,7 @@ ASSUMPTIONS = ['accuracy_on_data against all-zero reference data is recorded, '
     'not judged (its only documented sentinel is for missing data)',
     'tt_to_qtt on mode size 1 (2^0, q = 0) is outside its documented domain '
     '(q >= 1): rejection or a well-formed result are both accepted']
+COVER = ['svd.matrix_svd', 'svd.matrix_skeleton', 'transformation.truncate', 'act_two.accuracy', 'act_one.norm', 'anova.ANOVA.build', 'anova.ANOVA.cores', 'anova_func.ANOVA_func.cores', 'core.core_stab', 'core.core_tt_to_qtt', 'vis.show']
 SHARDS = {'quick': 12, 'thorough': 16}
 
 FAMILIES = ['zero-const', 'zero-mul', 'zero-core', 'zero-diff', 'rank1',
